@@ -284,6 +284,70 @@ pub fn run_check(replay: Option<Value>) -> i32 {
         Some(out)
     });
 
+    // (a') the mildly stiff system with the implicit methods and the differenced Jacobian: a Jacobian that degrades
+    // with the size of the state (increments below an ulp of it, overflowing squares) shows in the step count
+    for (mi, m) in [Method::RADAU, Method::BDF].iter().enumerate() {
+        for backward in [false, true] {
+            let key = format!("scalestiff-fd:{}:{}", mi, backward as u8);
+            if only.as_ref().map(|o| *o != key).unwrap_or(false) {
+                continue;
+            }
+            let l = 200.0;
+            let p0 = Prob {
+                name: format!("oscillator with a relaxing follower, rate {}", l),
+                n: 3,
+                f: Arc::new(move |_t, y, d| {
+                    d[0] = y[1];
+                    d[1] = -y[0];
+                    d[2] = -l * (y[2] - y[0]);
+                }),
+                jac: None,
+                flow: None,
+                y0: vec![1.0, 0.0, 1.0],
+                linear_homogeneous: true,
+            };
+            // (forward only is stiff; the reflected problem run backward is the same computation mirrored)
+            let p = if backward { reflect(&p0) } else { p0 };
+            let xend = if backward { -6.0 } else { 6.0 };
+            let c = Cfg::new(*m, 0.0, xend, &p.y0).tol(1e-4, 1e-7);
+            let rb = run(&p, &c);
+            rep.evaluations += 1;
+            rep.transitions += rb.st.n_ode;
+            let sb = match rb.sol().filter(|s| s.status == Status::Success) {
+                Some(s) => s,
+                None => {
+                    rep.violations.push(Violation::new(&key, "outcome", format!("base run ended with {}", rb.outcome_name()), json!({"key": key})).with("method", mname(*m)).with("symmetry", "scaling"));
+                    continue;
+                }
+            };
+            for k in [-600i32, -60, 60, 200, 600] {
+                let f = 2f64.powi(k);
+                let mut cs = c.clone();
+                cs.y0 = c.y0.iter().map(|v| v * f).collect();
+                cs.atol = Tol::S(1e-7 * f);
+                let r = run(&p, &cs);
+                rep.evaluations += 1;
+                rep.transitions += r.st.n_ode;
+                rep.validated += 1;
+                *rep.tags.entry("scaling-fd-stiff".into()).or_insert(0) += 1;
+                let ok = match r.sol() {
+                    Some(s) if s.status == Status::Success => {
+                        let (na, nb) = (s.naccpt as f64, sb.naccpt as f64);
+                        let dev = s.y.last().unwrap().iter().zip(sb.y.last().unwrap()).fold(0.0f64, |a, (u, v)| a.max((u / f - v).abs()));
+                        (na - nb).abs() <= 0.15 * nb + 3.0 && dev <= 50.0 * 1e-4
+                    }
+                    _ => false,
+                };
+                if !ok {
+                    rep.violations.push(
+                        Violation::new(&key, "scaling-fd", format!("{} with the differenced Jacobian on the mildly stiff system scaled by 2^{}: {} with {} accepted steps, unscaled: Success with {}", mname(*m), k, r.outcome_name(), r.sol().map(|s| s.naccpt).unwrap_or(0), sb.naccpt), json!({"key": key}))
+                            .with("method", mname(*m))
+                            .with("symmetry", "scaling"),
+                    );
+                }
+            }
+        }
+    }
     // (b) power-of-two scaling of state and atol on linear homogeneous systems, (c) scalar vs vector tolerance
     let lprobs = linear_problems();
     // (2^600 = 4e180: finite, but its square is not)
